@@ -3,6 +3,8 @@ package hist
 import (
 	"fmt"
 
+	"github.com/gnolang/gno/gno.land/pkg/gnoland"
+
 	"verifharness/internal/chainsim"
 )
 
@@ -17,6 +19,8 @@ type PlayOpts struct {
 	Chain     chainsim.Options
 	RestartAt map[int]bool // restart before block index i (0-based)
 	Monitors  []Monitor
+	// GenesisHook may amend the genesis state (extra balances, packages, txs).
+	GenesisHook func(c *chainsim.Chain, st *gnoland.GnoGenesisState)
 }
 
 // Play initialises a chain with Genesis and plays h. Returns the chain (caller closes).
@@ -25,7 +29,11 @@ func Play(h *History, o PlayOpts) (*chainsim.Chain, error) {
 	if err != nil {
 		return nil, err
 	}
-	r := c.InitChain(Genesis(c))
+	gst := Genesis(c)
+	if o.GenesisHook != nil {
+		o.GenesisHook(c, &gst)
+	}
+	r := c.InitChain(gst)
 	if r.Error != nil {
 		return c, fmt.Errorf("initchain: %s", r.Error.Error())
 	}
